@@ -107,11 +107,29 @@ def run(res):
     cases, meta = [], []
     classes = gen_models.CLASSES + ['BinomialGAM']
     regimes = ['n>m', 'n>m', 'n=m', 'n<m']
-    for i in range(nfits):
+    nforced = 14 if res.tier == 'quick' else 80
+    for i in range(nfits + nforced):
         cls = classes[i % len(classes)]
         regime = regimes[(i // len(classes)) % len(regimes)]
-        scn = gen_models.gen_scenario(rng, cls=cls, regime=regime, constraints=(i % 5 == 4), max_n=50 if res.tier == 'quick' else 160,
-                                      max_m=18 if res.tier == 'quick' else 40)
+        small = cls in ('LinearGAM', 'ExpectileGAM') and rng.random() < 0.5
+        forced = i >= nfits
+        if forced:
+            # identity-link models that really iterate (asymmetric weights / constraints), targets in small units, n > m
+            cls, regime, small = ['ExpectileGAM', 'LinearGAM'][i % 2], 'n>m', True
+        scn = gen_models.gen_scenario(rng, cls=cls, regime=regime, constraints=(i % 5 == 4) or (small and cls == 'LinearGAM'),
+                                      max_n=50 if res.tier == 'quick' else 160, max_m=18 if res.tier == 'quick' else 40)
+        if forced:
+            scn['kw'].update(tol=10 ** rng.uniform(-9, -6), max_iter=200)
+            if cls == 'ExpectileGAM':
+                scn['kw']['expectile'] = rng.choice([0.05, 0.1, 0.25, 0.8, 0.93])
+            res.count('forced: iterating identity-link model, small units')
+        if small:
+            # targets in small units: the coefficient norm is far below 1, so only a RELATIVE stopping rule may report convergence
+            u = 10 ** rng.uniform(-8, -3)
+            scn['y'] = scn['y'] * u
+            if 'scale' in scn['kw']:
+                scn['kw']['scale'] = scn['kw']['scale'] * u * u
+            res.count('targets in small units (|y| ~ %s)' % ('1e-8..1e-5' if u < 1e-5 else '1e-5..1e-3'))
         d = gen_models.describe(scn)
         try:
             gam, its, out = gen_models.fit_captured(scn)
